@@ -58,7 +58,7 @@ def _mk():
 
 DATA = _mk()
 DATA_CANON = {k: H.canon_value(v) for k, v in DATA.items()}
-CUTS = {2: np.array([[0, 3], [2, 6]]), 3: np.array([[0, 2, 5], [1, 3, 6]]), 4: np.array([[0, 1, 4, 6], [0, 2, 4, 5]])}
+CUTS = {2: np.array([[0, 4], [1, 6]]), 3: np.array([[0, 2, 5], [1, 3, 6]]), 4: np.array([[0, 1, 4, 6], [0, 2, 4, 5]])}
 CUTS_CANON = {k: H.canon_value(v) for k, v in CUTS.items()}
 
 
@@ -224,6 +224,12 @@ def worlds():
     # scorers alone
     W["l2cost"] = (lambda: {"s": co.L2Cost()}, {"sets": [("s", "param", 1.0), ("s", "param", None)], "data": ("A", "Ap", "B"), "deep": True})
     W["gvcost"] = (lambda: {"s": co.GaussianVarCost()}, {"sets": [("s", "param", (0.0, 2.0)), ("s", "param", None)], "data": ("A", "Ap", "B"), "deep": True})
+    W["covcost"] = (lambda: {"s": co.GaussianCovCost()}, {
+        "sets": [("s", "param", (0.0, 2.0)), ("s", "param", None), ("s", "param", (1.0, 0.5))], "data": ("A", "Ap", "B"), "deep": True})
+    W["changescore-cov"] = (lambda: {"s": cs.ChangeScore(co.GaussianCovCost())}, {
+        "sets": [("s", "cost__param", (0.0, 2.0), "GaussianCovCost"), ("s", "cost", Spec("L2Cost", param=None))], "data": ("A", "Ap", "B"), "deep": True})
+    W["pelt-cov"] = (lambda: {"pelt": cd.PELT(co.GaussianCovCost(), penalty_scale=0.05, min_segment_length=3)}, {
+        "sets": [("pelt", "cost__param", (0.0, 2.0), "GaussianCovCost"), ("pelt", "penalty_scale", 0.5)], "data": ("A", "Ap", "B")})
     W["cusum"] = (lambda: {"s": cs.CUSUM()}, {"sets": [], "data": ("A", "Ap", "B"), "deep": True})
     W["changescore"] = (lambda: {"s": cs.ChangeScore(co.L2Cost())}, {
         "sets": [("s", "cost__param", 1.0, "L2Cost"), ("s", "cost", Spec("GaussianVarCost", param=None)), ("s", "cost__param", (0.0, 2.0), "GaussianVarCost")],
@@ -434,7 +440,7 @@ class Explorer:
         for ck, cv in CUTS.items():
             if H.canon_value(cv) != CUTS_CANON[ck]:
                 acc.violation("caller-cuts-modified", case, f"cuts array was modified by {kind}", key)
-                CUTS[ck] = {2: np.array([[0, 3], [2, 6]]), 3: np.array([[0, 2, 5], [1, 3, 6]]), 4: np.array([[0, 1, 4, 6], [0, 2, 4, 5]])}[ck]
+                CUTS[ck] = {2: np.array([[0, 4], [1, 6]]), 3: np.array([[0, 2, 5], [1, 3, 6]]), 4: np.array([[0, 1, 4, 6], [0, 2, 4, 5]])}[ck]
         # (3) hyper-parameters untouched by fit / predict / evaluate, and equal to the model's
         names = {id(o): n for n, o in world.items()}
         if before is not None:
